@@ -164,3 +164,14 @@ def build_response_violation(version, opid, status, raise_flag, content=b"x", en
         return f"returned {r!r} although raise_on_unexpected_status is set"
     parsed = r.parsed if entry == "_build_response" else r
     return None if parsed is None else f"parsed value {parsed!r} for an undocumented status"
+
+
+def from_dict_outcome(version, class_name, src, config=None):
+    """'raised <Type>: ...' or the repr of the decoded object (for replaying edge-of-domain obligations)"""
+    from openapi_python_client import utils
+    pkg, doc = package("models", version)
+    cls = getattr(pkg.module("models." + utils.snake_case(class_name)), class_name)
+    try:
+        return repr(cls.from_dict(src))
+    except BaseException as e:  # noqa
+        return f"raised {type(e).__name__}: {e}"
